@@ -646,11 +646,11 @@ def check_C18(run):
 
 
 def check_C02(run):
-    check_hist_generic(run, [("sparse", "sparse", 120, 5000, RULE_HIST + "; profile sparse: HintBPTSparseIdxMode, one bucket, 12 keys with "
+    check_hist_generic(run, [("sparse", "sparse", 120, 2000, RULE_HIST + "; profile sparse: HintBPTSparseIdxMode, one bucket, 12 keys with "
                               "shared prefixes, segments of 150-350 bytes (most keys live in sealed segments reached through the "
                               "on-disk index files), Put/PutWithTimestamp/Delete/TTL, reopens; reads Get/GetAll/RangeScan/PrefixScan "
                               "(large limit); the model is run with RAM-mode semantics, i.e. sparse results must equal RAM results"),
-                             ("sparse2", "sparse2", 50, 2500, RULE_HIST + "; profile sparse2: 30 keys, 45 small transactions, segments "
+                             ("sparse2", "sparse2", 50, 800, RULE_HIST + "; profile sparse2: 30 keys, 45 small transactions, segments "
                               "of 600-1500 bytes (on-disk key tree and transaction-id tree with inner nodes)")])
 
 
